@@ -197,6 +197,7 @@ class Analyzer:
         self.writers = writers_of(P)
         self.keyinfo = {}
         self.alias = self._alias_locals()
+        self.puredefs = self._pure_defs()
         fic = []
         for v in self.field_inv.values():
             for x in (v.lo, v.hi):
@@ -253,6 +254,47 @@ class Analyzer:
                 continue
             if self._pure_path(d):
                 out[v] = d
+        return out
+
+    def _pure_defs(self):
+        """integer locals with exactly one definition that is pure arithmetic over other locals/parameters:
+        var id -> (def expr id, set of variable ids it depends on)"""
+        F = self.F
+        defs, cnt = {}, {}
+        for n in F.pos:
+            nd = F.ex[n]
+            if nd['k'] == 'decl':
+                for v in nd['vars']:
+                    if 'id' in v and v.get('init'):
+                        defs[v['id']] = v['init']
+                        cnt[v['id']] = cnt.get(v['id'], 0) + 1
+            elif nd['k'] == 'assign':
+                l = F.ex[F.strip_casts(nd['c'][0])]
+                if l['k'] == 'ref' and l['decl']['kind'] in ('var', 'param'):
+                    cnt[l['decl']['id']] = cnt.get(l['decl']['id'], 0) + 2
+            elif nd['k'] == 'un' and nd['op'] in ('&', 'pre++', 'pre--', 'post++', 'post--'):
+                l = F.ex[F.strip_casts(nd['c'][0])]
+                if l['k'] == 'ref' and l['decl']['kind'] in ('var', 'param'):
+                    cnt[l['decl']['id']] = cnt.get(l['decl']['id'], 0) + 2
+        out = {}
+        for v, d in defs.items():
+            if cnt.get(v) != 1 or not int_type_range(F.vars.get(v, {}).get('t', '')):
+                continue
+            deps = set()
+            ok = True
+            for n in F.walk(d):
+                nd = F.ex[n]
+                if nd['k'] in ('int', 'cast'):
+                    continue
+                if nd['k'] == 'bin' and nd['op'] in ('+', '-', '*', '&', '|', '>>', '<<', '/', '%'):
+                    continue
+                if nd['k'] == 'ref' and nd['decl']['kind'] in ('var', 'param') and 'extent' not in nd['decl']:
+                    deps.add(nd['decl']['id'])
+                    continue
+                ok = False
+                break
+            if ok and deps and all(cnt.get(x, 0) == 0 or x in defs and cnt.get(x) == 1 for x in deps):
+                out[v] = (d, deps)
         return out
 
     def _pure_path(self, e, depth=0):
@@ -731,6 +773,17 @@ class Analyzer:
     def arith(self, op, a, b, nd=None):
         if a.is_bottom() or b.is_bottom():
             return BOT
+        ca, cb = a.const(), b.const()
+        if ca is not None and cb is not None and op in ('&', '|', '^', '<<', '>>', '%') and ca >= 0 and cb >= 0:
+            try:
+                if op == '&': return K(int(ca) & int(cb))
+                if op == '|': return K(int(ca) | int(cb))
+                if op == '^': return K(int(ca) ^ int(cb))
+                if op == '<<' and cb < 63: return K(int(ca) << int(cb))
+                if op == '>>' and cb < 64: return K(int(ca) >> int(cb))
+                if op == '%' and cb > 0: return K(int(ca) % int(cb))
+            except Exception:
+                pass
         if op == '+':
             lt, le = frozenset(), frozenset()
             if b.const() is not None:
@@ -976,11 +1029,13 @@ class Analyzer:
                 nv = v.copy(lo=1)
             elif v.hi == 0:
                 nv = v.copy(hi=-1)
+            elif v.lo < 0 < v.hi:
+                nv = v.copy(ne=v.ne | {0})
             if self.ex[e].get('t', '').endswith('*'):
                 nv = nv.copy(nn=True)
             self.assign_refined(env, e, v, nv)
         else:
-            if v.lo > 0 or v.hi < 0 or v.nn is True:
+            if v.lo > 0 or v.hi < 0 or v.nn is True or 0 in v.ne:
                 return None
             nv = v.copy(lo=0, hi=0)
             if self.ex[e].get('t', '').endswith('*'):
@@ -1140,6 +1195,18 @@ class Analyzer:
         if key is None:
             return
         env[key] = new
+        if key.startswith('v') and key[1:].isdigit() and self.puredefs:
+            vid = int(key[1:])
+            for dv, (dexp, deps) in self.puredefs.items():
+                if vid in deps:
+                    cur = env.get(f'v{dv}')
+                    if cur is None:
+                        continue
+                    nv = self.peek(env, dexp)
+                    m = cur.copy(lo=max(cur.lo, nv.lo), hi=min(cur.hi, nv.hi))
+                    if m.is_bottom():
+                        env['$dead'] = True
+                    env[f'v{dv}'] = m
         sym = self.symbol(key, e)
         if sym:
             sv = dict(env.get('$sym') or {})
@@ -1443,6 +1510,8 @@ class Analyzer:
         return outs
 
     def _emit(self, outs, s, env, keep_tmp=False, cond=None):
+        if env.get('$dead'):
+            return
         tmp = env.get('$tmp') or {}
         if keep_tmp or True:
             # keep only temporaries that a later block may need: values of conditional-operator arms and short-circuit
